@@ -466,7 +466,21 @@ def main():
 
     # (b) correspondence / proof obligations broken, no oracle failure found
     if not violations and not known_hits:
-        if corr_hits:
+        pan = next(((r, x) for (r, x) in corr_hits if x[2].split("\t")[0].startswith("panic")), None)
+        if pan:
+            # the real crate panicked where the model returns a value: a concrete input on which the call yields no result
+            # at all (for C14: the error cannot be rendered)
+            r, x = pan
+            hist = history_of(r["ops"], x[0])
+            small, hit = shrink(work, hist, lambda kind, y: kind == "D" and y[2].split("\t")[0].startswith("panic"), budget_s=40)
+            div = (hit or x)[2]
+            p = write_replay(f"{tier}-{seed}-panic", dict(
+                property=pid, kind="failing-input", oracle="PANIC: the implementation panicked instead of returning (message in hex): " + div.split("\t")[0],
+                ops=small, readable=[pretty_op(l) for l in small]))
+            violations.append((p, ""))
+        if violations:
+            pass
+        elif corr_hits:
             r, x = corr_hits[0]
             hist = history_of(r["ops"], x[0])
             cls = x[1]
